@@ -491,12 +491,34 @@ def deparam(f, idx, ctx):
 def no_thread_edge(p, q, lab):
     # after the thread was started, the "there is no thread" outcome of a test of the handle is not a real path: the
     # not-joinable edge of joinable(), and the null edge of any null test of the (smart) pointer to the thread
-    # (`if (t)`, `t != nullptr`, `!t`, `t.get() == nullptr` ...)
+    # (`if (t)`, `t != nullptr`, `!t`, `t.get() == nullptr` ...); combined and named forms are decided recursively:
+    # `t && t->joinable()` being false means one of the two "no thread" outcomes, whichever it is
     if not lab or not isinstance(lab[0], int):
         return False
-    ff = lab[1]
-    core, pol = norm_cond(ff, lab[0])
-    truth = lab[2] if pol else (not lab[2])
+    return _no_thread(lab[1], lab[0], lab[2], 0)
+
+
+def _no_thread(ff, idx, truth, depth):
+    if depth > 8:
+        return False
+    n = ff.nodes[idx]
+    hops = 0
+    while n['k'] == 'cast' and hops < 6:
+        n = ff.nodes[n['e']]
+        hops += 1
+    if n['k'] == 'unop' and n['op'] == '!':
+        return _no_thread(ff, n['e'], not truth, depth + 1)
+    if n['k'] == 'binop' and n['op'] in ('&&', '||'):
+        a, b = _no_thread(ff, n['lhs'], truth, depth + 1), _no_thread(ff, n['rhs'], truth, depth + 1)
+        every = (n['op'] == '&&' and not truth) or (n['op'] == '||' and truth)     # the outcome is a disjunction of the operands' outcomes
+        return (a and b) if every else (a or b)
+    if n['k'] == 'ref' and n.get('sk') == 'local' and (n.get('t') or '').replace('const ', '') == 'bool':
+        init = once_init(ff, n['i'])
+        if init is not n and 'i' in init and init['i'] != n['i']:
+            return _no_thread(ff, init['i'], truth, depth + 1)
+        return False
+    core, pol = norm_cond(ff, n['i'])
+    truth = truth if pol else (not truth)
     cn = ff.nodes[core]
     if cn['k'] == 'call' and qmatch(cn.get('c', ''), 'std::thread::joinable'):
         return truth is False
@@ -513,7 +535,7 @@ def no_thread_edge(p, q, lab):
         subj, null_when = cn['obj'], False
     elif 'std::thread' in (cn.get('t') or ''):
         subj, null_when = core, False
-    if subj is not None and 'std::thread' in (ff.nodes[subj].get('t') or '' ) + (strip_casts(ff, subj).get('t') or ''):
+    if subj is not None and 'std::thread' in (ff.nodes[subj].get('t') or '') + (strip_casts(ff, subj).get('t') or ''):
         return truth is null_when
     return False
 
